@@ -11,7 +11,7 @@ from . import instr as I
 from .history import Hist, scratch_file
 from .runner import rng_for, Result, ns, exc_info
 from .p_c09 import strip_pert
-from .p_c15 import param_diff, norm, objects_of
+from .p_c15 import param_diff, norm, objects_of, saved_fields
 from .p_c08 import add_due_times
 
 MODEL_CLASSES = (ns.BaseTask, ns.BaseComponent, ns.BaseWorker, ns.BaseFacility, ns.BaseTeam, ns.BaseWorkplace)
@@ -214,7 +214,9 @@ def run_stage(case, res):
     I.set_order(order)
     ov = None
     if case.get("subproject_task") is not None:
-        ov = {case["subproject_task"]: (ns.BaseSubProjectTask, {})}
+        import datetime
+        secs = [60, 600, 3600, 86400, 172800, 90061][case["i"] % 6]
+        ov = {case["subproject_task"]: (ns.BaseSubProjectTask, {"unit_timedelta": datetime.timedelta(seconds=secs)})}
         res.count("C16.models_with_subproject_task")
     m = B.build(spec, task_overrides=ov)
     h = Hist(spec, order=order, model=m)
@@ -260,8 +262,12 @@ def run_stage(case, res):
             res.violate("C16", "C16/roundtrip-differs:%s" % field_of(d[0], j1),
                         "stage %s: JSON of the restored project differs at %s: %r -> %r" % (st, d[0], d[1], d[2]), path=d[0])
         check_references(res, q)
-        pd = param_diff(p, q)
-        if pd:
+        pd, wrong = param_diff(p, q, saved_fields(j1))
+        res.count("C16.restored_parameter_comparisons")
+        for cls, prm in sorted(wrong):
+            res.violate("C16", "C16/saved-parameter-restored-differently:%s.%s" % (cls, prm),
+                        "stage %s: %s.%s is part of the saved format but the restored object's value differs from the original's" % (st, cls, prm))
+        if pd or wrong:
             res.count("C16.resim_skipped_unsaved_settings")
             for cls, prm in sorted(pd):
                 res.count("C16.lost.%s.%s" % (cls, prm))
